@@ -1346,7 +1346,7 @@ class FunctionDefParser(BaseNodeParser):
         if nxtok < len(self.atok.tokens) and (
                 self.atok.tokens[nxtok].type == tokenize.COMMENT
         ) and self.node.last_token.line == self.atok.tokens[nxtok].line:
-            deflines = funcdef.splitlines()
+            deflines = funcdef.split("\n")     # Not at \f etc. in literals
             deflines.pop()
             deflines.append(self.node.last_token.line.rstrip())
             funcdef = "\n".join(deflines)
